@@ -81,6 +81,17 @@ def run(tier, seed):
             new.append(so["name"])
         if not new:
             continue
+        # one compartment, stratum by stratum of the stratification applied last, added up again: the unstratified
+        # model's output for that compartment
+        last = next(o for o in strat["ops"] if o["op"] == "strat" and o["name"] == new[-1])
+        if last["kind"] != "strain" and last["comps"]:
+            x_ = r.choice(last["comps"])
+            base["ops"] += [{"op": "req", "name": "onecomp", "save": True, "req": {"type": "comp", "names": [x_], "filt": {}}}]
+            parts = []
+            for st_ in last["strata"]:
+                parts.append({"op": "req", "name": "onecomp_%s" % st_, "save": r.random() < 0.5,
+                              "req": {"type": "comp", "names": [x_], "filt": {last["name"]: st_}}})
+            strat["ops"] += parts + [{"op": "req", "name": "onecomp", "save": True, "req": {"type": "agg", "sources": [q_["name"] for q_ in parts]}}]
         if len(progs) % 2 == 1:
             # outputs requested before the (unadjusted) stratifications are applied: requests name flows and
             # compartments, so a later stratification must not change what they add up
